@@ -21,6 +21,10 @@ Clauses (names used in violations) and the sentence of the statement that licens
 Edit spaces (part-edit1, part-edit2, score-edit): the same clauses on ONE Part / Score object that is queried, edited
 through the public API (signatures, measures, notes, rests, quarter duration; alphabet in mc/c05_edit.py) and queried
 again with the same options - every array must be the table of the score as it is when the array is taken.
+
+Nesting space (score-nest): 1-3 parts distributed in every way over a part list with PartGroups nested to a bounded depth
+(groups of one element included); the array of the list, of the Score made of it and of every group at any level is the
+union of the tables of the parts below it (same id readings as the other score spaces).
 """
 from fractions import Fraction as F
 from itertools import product
@@ -411,9 +415,10 @@ def eval_part(case):
 # score level
 
 
-def eval_score_arrays(res, sc, items, st, configs, ctx):
+def eval_score_arrays(res, sc, items, st, configs, ctx, group=None):
     """note arrays of the score / group / list `sc` built from `items`, for every (unique ids, flags) in
-    `configs`, compared with the union of the part tables; returns (rows, lcm)"""
+    `configs`, compared with the union of the part tables; returns (rows, lcm).  st == "partgroup": the group is
+    the first element of the score, or `group` = (PartGroup object, specs of its children)"""
     import partitura.utils.music as M
 
     cfg_all = list(G.NOTE_FLAGS)
@@ -430,8 +435,8 @@ def eval_score_arrays(res, sc, items, st, configs, ctx):
             if not (unique and fl == cfg_all):
                 entries = entries[:1]
         elif st == "partgroup":
-            pg = sc.part_structure[0]
-            rows, L = R.list_rows(items[0]["children"], unique)
+            pg, children = group if group is not None else (sc.part_structure[0], items[0]["children"])
+            rows, L = R.list_rows(children, unique)
             entries = [("PartGroup.note_array", lambda: pg.note_array(unique_id_per_part=unique, **kw)),
                        ("ensure_notearray(PartGroup)", lambda: M.ensure_notearray(pg, unique_id_per_part=unique, **kw))]
             if not (unique and fl == cfg_all):
@@ -489,6 +494,43 @@ def eval_score(case):
         configs = [(case["unique"], case["flags"])]
     nrows, L = eval_score_arrays(res, sc, items, st, configs, ctx)
     res.outcome = "parts=%d rows=%d lcm=%d" % (len(case["q"]), nrows, L)
+    res.nontrivial = nrows > 0
+    return res
+
+
+def eval_nest(case):
+    """parts distributed over a list with nested groups: the array of the list, of the Score made of it and of every
+    group inside it (at any level) is the union of the tables of the parts below it"""
+    from mc import ir
+
+    res = CaseResult(states=1, transitions=0, traces=1)
+    items = G.nest_items(case)
+    shape = case["shape"]
+    ctx = "q=%s contents=%s meter=%s shape=%s" % (case["q"], case["c"], case["meter"], shape)
+    ok, sc = call(res, "score-built", lambda: ir.build_score({"parts": items}), ctx)
+    if not ok:
+        res.outcome = "build-failed"
+        return res
+    cfg_all = list(G.NOTE_FLAGS)
+    rot = G.NOTE_FLAGS[(sum(case["q"]) + sum((i + 1) * c for i, c in enumerate(case["c"])) + len(str(shape))) % len(G.NOTE_FLAGS)]
+    nrows, L = eval_score_arrays(res, sc, items, "list", [(True, cfg_all), (False, cfg_all), (True, []), (False, [rot])],
+                                 ctx + " of=list")
+    eval_score_arrays(res, sc, items, "score", [(True, cfg_all)], ctx + " of=score")
+    ngroups = [0]
+
+    def walk(specs, objs, path):
+        for i, (x, o) in enumerate(zip(specs, objs)):
+            if "group" in x:
+                ngroups[0] += 1
+                res.states += 1
+                here = path + [i]
+                eval_score_arrays(res, sc, items, "partgroup", [(True, cfg_all), (False, [rot])],
+                                  ctx + " of=group%s" % (here,), group=(o, x["children"]))
+                walk(x["children"], o.children, here)
+
+    walk(items, list(sc.part_structure), [])
+    res.outcome = "nest parts=%d groups=%d depth=%d top=%d rows=%d lcm=%d" % (
+        len(case["q"]), ngroups[0], G.nest_depth(shape), len(shape), nrows, L)
     res.nontrivial = nrows > 0
     return res
 
@@ -710,6 +752,8 @@ def eval_case(case):
         return eval_score_edit(case)
     if sp.startswith("part-edit"):
         return eval_edit(case)
+    if sp == "score-nest":
+        return eval_nest(case)
     if sp.startswith("score"):
         return eval_score(case)
     if sp == "rest-list":
@@ -935,6 +979,38 @@ def gen_score3_tacet():
             yield dict(c, sp="score3-tacet")
 
 
+NEST_CONTENTS = [0, 2, 3]  # no note; note + tie chain in two voices; chord with a missing voice + grace note
+NEST_DIVS2 = [(2, 3), (4, 6), (2, 2)]
+NEST_DIVS3 = [(1, 2, 3), (6, 4, 3), (2, 2, 2)]
+B_NEST3 = 12
+
+
+def gen_score_nest(tier, block=None):
+    """1-2 parts: complete in both tiers (thorough: one more level of groups, every contents); 3 parts: hash block"""
+    deep = 3 if tier == "thorough" else 2
+    cont2 = list(range(len(G.CONTENTS))) if tier == "thorough" else NEST_CONTENTS
+    for shape in G.nest_shapes(1, deep):
+        for q in (1, 2, 3):
+            for c in range(len(G.CONTENTS)):
+                if q % G.CONTENTS[c]["need"]:
+                    continue
+                for meter in ("34", "34pk"):
+                    yield dict(sp="score-nest", q=[q], c=[c], meter=meter, shape=shape)
+    for shape in G.nest_shapes(2, deep):
+        for q in NEST_DIVS2:
+            for c in product(cont2, repeat=2):
+                if any(qq % G.CONTENTS[cc]["need"] for qq, cc in zip(q, c)):
+                    continue
+                for meter in ("34", "34pk"):
+                    yield dict(sp="score-nest", q=list(q), c=list(c), meter=meter, shape=shape)
+    for shape in G.nest_shapes(3, 2):
+        for q in NEST_DIVS3:
+            for c in product(NEST_CONTENTS, repeat=3):
+                cs = dict(sp="score-nest", q=list(q), c=list(c), meter="34pk", shape=shape)
+                if block is None or block_of(cs, B_NEST3) == block:
+                    yield cs
+
+
 def gen_score_flags():
     reps = [dict(q=[2, 3], c=[2, 3], meter="34pk", struct="score"), dict(q=[4, 6], c=[3, 6], meter="34", struct="list"),
             dict(q=[6, 4, 3], c=[1, 2, 3], meter="34", struct="score-group-first")]
@@ -1051,6 +1127,23 @@ def spaces(tier, seed):
     else:
         out.append(Space("score3", lambda: gen_score3(None), True, "3 parts: divisions %s x contents^3 x pickup x structures %s" % (G.DIVS3, G.STRUCTS3)))
     out.append(Space("score3-tacet", gen_score3_tacet, True, "3 parts as a Score, no pickup: every contents triple with at least one part without notes x divisions %s" % (G.DIVS3,)))
+    nb = ("nesting shapes: 1-3 parts distributed in every way over a part list whose elements are parts or PartGroups "
+          "nested at most %d deep, groups of a single element included (%s shapes for 1, 2, 3 parts); on every shape the note "
+          "array of the list (note_array_from_part_list: unique ids on/off x all options, none, one rotating option), of the "
+          "Score made of it (Score.note_array, ensure_notearray) and of EVERY group inside it at any level "
+          "(PartGroup.note_array, ensure_notearray) against the union of the tables of the parts below it: lcm rescaling, "
+          "part-prefixed ids on request (prefix of every enclosing level with more than one element, or index in the flat "
+          "list of parts); 1 part: divisions {1,2,3} x every contents x pickup; 2 parts: divisions %s x contents %s^2 x "
+          "pickup; 3 parts (2 levels): divisions %s x contents %s^3, pickup")
+    if tier == "quick":
+        b = seed % B_NEST3
+        out.append(Space("score-nest", lambda b=b: gen_score_nest("quick", b), True,
+                         nb % (2, "3, 14, 70", NEST_DIVS2, NEST_CONTENTS, NEST_DIVS3, NEST_CONTENTS) +
+                         ": 1 and 2 parts complete, 3 parts block %d of %d" % (b, B_NEST3)))
+    else:
+        out.append(Space("score-nest", lambda: gen_score_nest("thorough"), True,
+                         nb % (3, "4, 30, 70", NEST_DIVS2, "{all %d}" % len(G.CONTENTS), NEST_DIVS3, NEST_CONTENTS) +
+                         ": complete (3 levels of groups for 1 and 2 parts)"))
     out.append(Space("score-flags", gen_score_flags, True, "all 2^7 option subsets x unique ids on/off on 3 representative scores"))
     out.append(Space("rest-list", gen_restlist, True, "rest arrays of lists / groups of 1-2 parts with equal divisions, ids prefixed on request"))
     out.append(Space("inverse1", lambda: gen_inverse(tier, 1), True, "note arrays of 1 row: onset x duration alphabets x pitch x {beat, div, both} x voice column x divs multiplier"))
